@@ -10,6 +10,7 @@
 #include "AMRGrid.hpp"
 #include "CartesianDensityGrid.hpp"
 #include "MortonKeyGenerator.hpp"
+#include "Octree.hpp"
 #include "Photon.hpp"
 #include "PointLocations.hpp"
 #undef private
@@ -656,6 +657,172 @@ static void op_cart(const std::vector< std::string > &w) {
   }
 }
 
+// ---------------------------------------------------------------- PointLocations (bucket search)
+static std::vector< CoordinateVector<> > pl_pos;
+static PointLocations *pl = nullptr;
+
+static void op_pl(const std::vector< std::string > &w) {
+  const std::string &sub = w[1];
+  if (sub == "new" && w.size() >= 10) {
+    delete pl;
+    pl = nullptr;
+    const uint64_t npc = u64(w[2]);
+    const ll n = sll(w[3]);
+    const CoordinateVector<> a(dbl(w[4]), dbl(w[5]), dbl(w[6]));
+    const CoordinateVector<> s(dbl(w[7]), dbl(w[8]), dbl(w[9]));
+    pl_pos.clear();
+    for (size_t i = 10; i + 2 < w.size(); i += 3)
+      pl_pos.push_back(CoordinateVector<>(dbl(w[i]), dbl(w[i + 1]), dbl(w[i + 2])));
+    // the bucket indices exactly as the constructor computes them (an index >= ncell_1D would
+    // make the constructor write out of bounds)
+    const uint_fast32_t N = pl_pos.size();
+    const uint_fast32_t npc2 = std::min< uint_fast32_t >(npc, N);
+    const double desired = N / npc2;
+    const uint_fast32_t ncell = std::round(std::cbrt(desired));
+    if ((ll)ncell != n) {
+      std::cout << "pl new grid-size-" << ncell << "\n";
+      return;
+    }
+    uint64_t chk = 0;
+    bool bad = false;
+    for (uint_fast32_t i = 0; i < N; ++i) {
+      uint_fast32_t ix[3];
+      for (int k = 0; k < 3; ++k)
+        ix[k] = (pl_pos[i][k] - a[k]) / s[k] * ncell;
+      chk = (chk * 31 + ((ix[0] * 1000ull + ix[1]) * 1000ull + ix[2])) % 1000000007ull;
+      if (ix[0] >= ncell || ix[1] >= ncell || ix[2] >= ncell)
+        bad = true;
+    }
+    if (bad) {
+      std::cout << "pl new bucket-out-of-range\n";
+      oracle("locate-index-out-of-range pointlocations-constructor");
+      return;
+    }
+    pl = new PointLocations(pl_pos, npc, Box<>(a, s));
+    // cross-check the real cell map against the indices computed above
+    uint64_t chk2 = 0;
+    for (uint_fast32_t i = 0; i < N; ++i)
+      chk2 = (chk2 * 31 + ((std::get< 0 >(pl->_cell_map[i]) * 1000ull + std::get< 1 >(pl->_cell_map[i])) * 1000ull +
+                           std::get< 2 >(pl->_cell_map[i]))) % 1000000007ull;
+    std::cout << "pl new " << N << " " << pl->_grid.size() << " " << chk2 << "\n";
+    if (chk != chk2)
+      oracle("pointlocations-cell-map-differs");
+    // every point is in exactly one bucket, the one of its cell map entry
+    std::vector< int > cnt(N, 0);
+    for (auto &gx : pl->_grid)
+      for (auto &gy : gx)
+        for (auto &gz : gy)
+          for (auto i : gz)
+            ++cnt[i];
+    for (uint_fast32_t i = 0; i < N; ++i)
+      if (cnt[i] != 1) {
+        oracle("pointlocations-point-not-in-exactly-one-bucket");
+        break;
+      }
+    return;
+  }
+  if (sub == "near" && w.size() == 5) {
+    if (!pl) {
+      std::cout << "pl near no-grid\n";
+      return;
+    }
+    const CoordinateVector<> q(dbl(w[2]), dbl(w[3]), dbl(w[4]));
+    const ll n = pl->_grid.size();
+    for (int k = 0; k < 3; ++k) {
+      const uint_fast32_t ai = (q[k] - pl->_grid_anchor[k]) / pl->_grid_cell_sides[k];
+      if ((ll)ai >= n || q[k] < pl->_grid_anchor[k]) {
+        std::cout << "pl near anchor-out-of-range\n";
+        oracle("locate-index-out-of-range pointlocations-query");
+        return;
+      }
+    }
+    const uint_fast32_t r = pl->get_closest_neighbour(q);
+    const double r2 = (pl_pos[r] - q).norm2();
+    std::cout << "pl near " << r << " " << showF(r2) << "\n";
+    // oracle: the brute-force nearest neighbour (same distance expression; ties by distance)
+    double best = -1.;
+    for (size_t i = 0; i < pl_pos.size(); ++i) {
+      const double d2 = (pl_pos[i] - q).norm2();
+      if (best < 0. || d2 < best)
+        best = d2;
+    }
+    if (r >= pl_pos.size() || r2 != best)
+      oracle("nearest-neighbour-differs-from-brute-force");
+    return;
+  }
+  std::cout << "bad-op\n";
+}
+
+// ---------------------------------------------------------------- Octree (oracle only)
+static std::vector< CoordinateVector<> > oc_pos;
+static std::vector< double > oc_h;
+static Octree *oc = nullptr;
+static Box<> oc_box;
+static bool oc_per = false;
+
+static double oc_dist(const CoordinateVector<> &a, const CoordinateVector<> &b) {
+  return oc_per ? oc_box.periodic_distance(a, b).norm() : (a - b).norm();
+}
+
+static void op_oct(const std::vector< std::string > &w) {
+  const std::string &sub = w[1];
+  if (sub == "new" && w.size() >= 9) {
+    delete oc;
+    oc_per = (w[2] == "1");
+    oc_box = Box<>(CoordinateVector<>(dbl(w[3]), dbl(w[4]), dbl(w[5])),
+                   CoordinateVector<>(dbl(w[6]), dbl(w[7]), dbl(w[8])));
+    oc_pos.clear();
+    oc_h.clear();
+    for (size_t i = 9; i + 3 < w.size(); i += 4) {
+      oc_pos.push_back(CoordinateVector<>(dbl(w[i]), dbl(w[i + 1]), dbl(w[i + 2])));
+      oc_h.push_back(dbl(w[i + 3]));
+    }
+    oc = new Octree(oc_pos, oc_box, oc_per);
+    oc->set_auxiliaries(oc_h, Octree::max< double >);
+    std::cout << "oct new " << oc_pos.size() << "\n";
+    return;
+  }
+  if (!oc) {
+    std::cout << "bad-op\n";
+    return;
+  }
+  const double eps = 1.e-12;
+  if ((sub == "ngbs" && w.size() == 5) || (sub == "sphere" && w.size() == 6)) {
+    const CoordinateVector<> q(dbl(w[2]), dbl(w[3]), dbl(w[4]));
+    const double rad = (sub == "sphere") ? dbl(w[5]) : 0.;
+    std::vector< uint_fast32_t > res = (sub == "sphere") ? oc->get_ngbs_sphere(q, rad) : oc->get_ngbs(q);
+    std::cout << "oct " << sub << "\n";
+    std::set< uint_fast32_t > got(res.begin(), res.end());
+    std::string bad;
+    if (got.size() != res.size())
+      bad = "octree-neighbour-listed-twice";
+    for (size_t i = 0; i < oc_pos.size() && bad.empty(); ++i) {
+      const double r = oc_dist(oc_pos[i], q);
+      const double lim = oc_h[i] + rad;
+      const bool in = got.count(i) > 0;
+      if (r <= lim * (1. - eps) && !in)
+        bad = "octree-search-misses-a-brute-force-neighbour";
+      if (r > lim * (1. + eps) && in)
+        bad = "octree-search-returns-a-non-neighbour";
+    }
+    if (!bad.empty())
+      oracle(bad);
+    return;
+  }
+  if (sub == "closest" && w.size() == 5) {
+    const CoordinateVector<> q(dbl(w[2]), dbl(w[3]), dbl(w[4]));
+    const uint_fast32_t r = oc->get_closest_ngb(q);
+    std::cout << "oct closest\n";
+    double best = DBL_MAX;
+    for (size_t i = 0; i < oc_pos.size(); ++i)
+      best = std::min(best, oc_dist(oc_pos[i], q));
+    if (r >= oc_pos.size() || oc_dist(oc_pos[r], q) > best * (1. + eps))
+      oracle("octree-closest-differs-from-brute-force");
+    return;
+  }
+  std::cout << "bad-op\n";
+}
+
 int main() {
   std::string line;
   while (std::getline(std::cin, line)) {
@@ -680,6 +847,10 @@ int main() {
       op_amr(w);
     else if (o == "cart" && w.size() >= 2)
       op_cart(w);
+    else if (o == "pl" && w.size() >= 2)
+      op_pl(w);
+    else if (o == "oct" && w.size() >= 2)
+      op_oct(w);
     else
       std::cout << "bad-op\n";
   }
